@@ -198,6 +198,17 @@ class Server:
         self.stop()
 
 
+def patience_factor():
+    """>= 1: how much longer than on an idle machine a 'quiet' timeout has to be before silence means
+    anything.  Derived from the 1-minute load average per core (the checks are run next to other checks,
+    builds and sanitized servers); capped so that a hung server is still noticed."""
+    try:
+        per_core = os.getloadavg()[0] / float(os.cpu_count() or 1)
+    except OSError:
+        return 1.0
+    return min(6.0, max(1.0, 1.5 * per_core))
+
+
 # ------------------------------------------------------------------ HTTP/1 client
 def h1_exchange(port, segments, read_timeout=2.0, gap=0.0, half_close=False, max_bytes=1 << 26):
     """send the byte segments (optionally pausing), read until the server closes or goes
@@ -220,7 +231,7 @@ def h1_exchange(port, segments, read_timeout=2.0, gap=0.0, half_close=False, max
                 s.shutdown(socket.SHUT_WR)
             except OSError:
                 pass
-        s.settimeout(read_timeout)
+        s.settimeout(read_timeout * patience_factor())
         while len(buf) < max_bytes:
             try:
                 d = s.recv(65536)
@@ -478,6 +489,7 @@ class H2Conn:
 
     def pump(self, timeout=1.0, until=None):
         """read frames for up to `timeout` seconds of quiet (or until predicate(frames) holds)"""
+        timeout = timeout * patience_factor()
         end = time.time() + timeout
         while not self.closed:
             if until and until(self.frames):
